@@ -806,16 +806,10 @@ func (g *Gen) callAnchors(fr *Frame, st *State, name string, callee *ssa.Functio
 			continue
 		}
 		env := g.envFor(fr, st)
-		if callee != nil {
-			// the callee's parameters by name (they shadow caller variables of the same name; capture
-			// those in a ghost variable at entry when needed) and as arg0, arg1, ... (arg0 = receiver)
-			for i, p := range callee.Params {
-				if i < len(args) && args[i].T != "" {
-					cv := CV{T: args[i].T, Ty: p.Type()}
-					env.vars[p.Name()] = cv
-					env.vars[fmt.Sprintf("arg%d", i)] = cv
-				}
-			}
+		// the callee's parameters by name (they shadow caller variables of the same name; capture
+		// those in a ghost variable at entry when needed) and as arg0, arg1, ... (arg0 = receiver)
+		for k, v := range calleeParamVars(callee, args) {
+			env.vars[k] = v
 		}
 		goal := env.evalBool(a.Clause.Expr)
 		g.callSeq["callanchor:"+name+":"+a.Clause.Label]++
@@ -826,13 +820,36 @@ func (g *Gen) callAnchors(fr *Frame, st *State, name string, callee *ssa.Functio
 
 func calleeParamVars(callee *ssa.Function, args []Val) map[string]CV {
 	extra := map[string]CV{}
-	if callee != nil {
+	if callee == nil {
+		return extra
+	}
+	if len(callee.Params) > 0 {
 		for i, p := range callee.Params {
 			if i < len(args) && args[i].T != "" {
 				extra[p.Name()] = CV{T: args[i].T, Ty: p.Type()}
 				extra[fmt.Sprintf("arg%d", i)] = extra[p.Name()]
 			}
 		}
+		return extra
+	}
+	// a function without a built body (other module / standard library): names and types from the signature
+	sig := callee.Signature
+	i := 0
+	bind := func(name string, t types.Type) {
+		if i < len(args) && args[i].T != "" {
+			cv := CV{T: args[i].T, Ty: t}
+			if name != "" && name != "_" {
+				extra[name] = cv
+			}
+			extra[fmt.Sprintf("arg%d", i)] = cv
+		}
+		i++
+	}
+	if sig.Recv() != nil {
+		bind(sig.Recv().Name(), sig.Recv().Type())
+	}
+	for k := 0; k < sig.Params().Len(); k++ {
+		bind(sig.Params().At(k).Name(), sig.Params().At(k).Type())
 	}
 	return extra
 }
